@@ -99,8 +99,27 @@ def Thread.withState (t : Thread) (st : ThState) : Thread :=
 def Thread.withCpu (t : Thread) (cpu : Option Nat) : Thread :=
   { t with cpu := cpu, chCpu := t.chCpu.setv (cpuVal cpu) }
 
+/-- value of the state channel: nothing before the first execute, then the state's code -/
+def stateVal (st : ThState) : Value := if st = .unknown then .null else .int st.code
+
+theorem stateVal_of_ne {st : ThState} (h : st ≠ .unknown) : stateVal st = .int st.code := by
+  unfold stateVal; simp [h]
+
+theorem stateVal_eq_iff {s st : ThState} (hst : st ≠ .unknown) : stateVal s = .int st.code ↔ s = st := by
+  unfold stateVal
+  by_cases hs : s = .unknown
+  · simp only [hs, if_true]
+    constructor
+    · intro h; cases h
+    · intro h; exact absurd h.symm hst
+  · simp only [hs, if_false]
+    constructor
+    · intro h; injection h with h; exact ThState.code_inj h
+    · intro h; rw [h]
+
 theorem Thread.setState_eq {t : Thread} {w : Value}
-    (hS : ChanOK t.chState (.int t.state.code) false) (hT : ChanOK t.chTid w true) (st : ThState) :
+    (hS : ChanOK t.chState (stateVal t.state) false) (hT : ChanOK t.chTid w true) {st : ThState}
+    (hst : st ≠ .unknown) :
     t.setState st =
       if t.cpu.isNone then .error .noCpu
       else if t.state = st then .error .chanDup
@@ -111,9 +130,9 @@ theorem Thread.setState_eq {t : Thread} {w : Value}
   · simp only [hc]
     rw [Chan.set_noign hS, Chan.set_ign hT]
     by_cases hs : t.state = st
-    · simp [hs]; rfl
-    · have : ¬ (Value.int (t.state.code : Int) = Value.int (st.code : Int)) := by
-        intro h; injection h with h; exact hs (ThState.code_inj h)
+    · simp [hs, stateVal_of_ne hst]; rfl
+    · have : ¬ (stateVal t.state = Value.int (st.code : Int)) := by
+        intro h; exact hs ((stateVal_eq_iff hst).mp h)
       simp [this, hs]
       rfl
 
